@@ -80,9 +80,8 @@ Definition project_envs (st : store) (items : list lexpr) (es : list env) : list
 
 (** * The plans the front ends really build (gql_translator.rs / cypher_translator.rs), clause
     placement included.
-    GQL (since ce12a2a): Return(Limit(Skip(Sort(Filter(chain))))) — ORDER BY below SKIP/LIMIT as it
-    should be, RETURN (and with it DISTINCT) on top, i.e. DISTINCT is still applied AFTER SKIP/LIMIT
-    (C08-K6 in its remaining form); aggregating returns: Limit(Skip(Aggregate(Filter(chain)))).
+    GQL (since ce12a2a / cc624f1): Return(Limit(Skip(Sort(Filter(chain))))) — ORDER BY below SKIP/LIMIT;
+    with DISTINCT: Limit(Skip(Return DISTINCT(Sort(..)))) so that DISTINCT precedes SKIP/LIMIT; aggregating returns: Limit(Skip(Aggregate(Filter(chain)))).
     Cypher: Limit(Skip(Sort(Return(Filter(chain))))) — ORDER BY ends up above RETURN (C08-K9).
     The [_pre] shapes are what the translators built before ce12a2a / a5bb467. *)
 Definition sort_keys (ks : list okey) : list (lexpr * bool) :=
@@ -92,6 +91,15 @@ Definition opt_limit (s : option nat) (p : lop) : lop := match s with Some n => 
 Definition opt_sort (ks : list okey) (p : lop) : lop := match ks with [] => p | _ => LSort (sort_keys ks) p end.
 Definition ret_items (items : list lexpr) : list (lexpr * option string) := map (fun e => (e, @None string)) items.
 Definition gql_plan_of (q : query) : lop :=
+  let body := where_plan (q_where q) (chain_plan (q_pat q)) in
+  match q_ret q with
+  | RPlain items false => LReturn (ret_items items) false (opt_limit (q_limit q) (opt_skip (q_skip q) (opt_sort (q_order q) body)))
+  | RPlain items true =>      (* since cc624f1: SKIP/LIMIT above the Return that plans DISTINCT *)
+      opt_limit (q_limit q) (opt_skip (q_skip q) (LReturn (ret_items items) true (opt_sort (q_order q) body)))
+  | RAgg keys aggs => opt_limit (q_limit q) (opt_skip (q_skip q) (LAggregate keys aggs body))
+  end.
+(** between ce12a2a and cc624f1: DISTINCT still applied after SKIP/LIMIT *)
+Definition gql_plan_pre_distinct_of (q : query) : lop :=
   let body := where_plan (q_where q) (chain_plan (q_pat q)) in
   match q_ret q with
   | RPlain items d => LReturn (ret_items items) d (opt_limit (q_limit q) (opt_skip (q_skip q) (opt_sort (q_order q) body)))
